@@ -279,7 +279,7 @@ func cmdCheck(args []string) int {
 			}
 		}
 		x := &exec.Explorer{P: p, Harness: fn, NWorker: nw, Solver: solver, Timeout: to, Tier: tier, Seed: seed,
-			KFOpen: kfOpen, Reverse: h.Reverse, NCases: 2, MaxStep: h.MaxSteps}
+			KFOpen: kfOpen, Reverse: h.Reverse, NCases: 2, MaxStep: h.MaxSteps, Progress: os.Getenv("VERIF_PROGRESS") != ""}
 		if h.MaxSecs > 0 {
 			x.Deadline = time.Now().Add(time.Duration(h.MaxSecs) * time.Second)
 		}
@@ -496,8 +496,12 @@ func cmdCheck(args []string) int {
 	b, _ := json.MarshalIndent(ev, "", " ")
 	os.WriteFile(evPath, b, 0o644)
 
-	for _, pr := range problems {
-		fmt.Printf("INCONCLUSIVE property=%s %s\n", prop, clip(pr, 1500))
+	for i, pr := range problems {
+		if i >= 5 {
+			fmt.Printf("INCONCLUSIVE property=%s ... and %d more problems (see evidence.coverage.problems)\n", prop, len(problems)-i)
+			break
+		}
+		fmt.Printf("INCONCLUSIVE property=%s %s\n", prop, clip(pr, 700))
 	}
 	if exit == 0 {
 		fmt.Printf("PASS property=%s tier=%s paths=%d obligations=%d discharged=%d queries=%d validated_natively=%d wall=%.1fs\n",
